@@ -1013,3 +1013,92 @@ Qed.
 
 Lemma wb_zip_nil f : wb f (IZip []) [].
 Proof. constructor; try reflexivity; intros [|i] c v E; discriminate. Qed.
+
+(* ------------------------------------------------------------------ len and get agree with the chain *)
+Definition dv : val := VInt 0.
+Definition lg (u : iterable) (vs : list val) : Prop :=
+  it_len R u = OVal (zlen vs) /\
+  forall i, (i < length vs)%nat -> it_get R u (Z.of_nat i) = OVal (nth i vs dv).
+
+Lemma seq_get_nat xs i : (i < length xs)%nat -> seq_get xs (Z.of_nat i) = OVal (nth i xs dv).
+Proof.
+  intros H. unfold seq_get. replace (Z.of_nat i <? 0) with false by (symmetry; apply Z.ltb_ge; lia).
+  rewrite znth_nat. destruct (nth_error xs i) eqn:E.
+  - now rewrite (nth_error_nth _ _ _ E).
+  - apply nth_error_None in E. lia.
+Qed.
+
+Lemma lg_array xs : lg (IArray xs) xs.
+Proof. split; [reflexivity|]. intros i H. now apply seq_get_nat. Qed.
+Lemma lg_list xs : lg (IList xs) xs.
+Proof. split; [reflexivity|]. intros i H. now apply seq_get_nat. Qed.
+Lemma lg_tuple items : lg (ITuple items) (map snd items).
+Proof.
+  split; [cbn [it_len]; unfold zlen; now rewrite map_length|]. intros i H. now apply seq_get_nat.
+Qed.
+
+Lemma lg_range r : in_box r -> lg (IRange r) (map VInt (range_elems r)).
+Proof.
+  intros Hb. pose proof (range_count_nonneg r) as Hc0. pose proof (range_count_bound r Hb) as [Hc _].
+  split.
+  - cbn [it_len]. rewrite range_len_ok by auto. unfold zlen. rewrite map_length, range_elems_length. f_equal. lia.
+  - intros i Hi. rewrite map_length, range_elems_length in Hi. cbn [it_get].
+    rewrite range_get_ok by (auto; unfold two63 in *; lia). cbv zeta.
+    replace (Z.of_nat i <? 0) with false by (symmetry; apply Z.ltb_ge; lia).
+    replace (0 <=? Z.of_nat i) with true by (symmetry; apply Z.leb_le; lia).
+    replace (Z.of_nat i <? range_count r) with true by (symmetry; apply Z.ltb_lt; lia).
+    cbn [andb bind]. f_equal.
+    assert (nth_error (map VInt (range_elems r)) i = Some (VInt (range_val r (Z.of_nat i)))) as E
+      by (now rewrite nth_error_map, range_elems_nth).
+    now rewrite (nth_error_nth _ _ _ E).
+Qed.
+
+Lemma lg_map g u vs : lg u vs -> lg (IMap g u) (map g vs).
+Proof.
+  intros [Hl Hg]. split.
+  - cbn [it_len]. rewrite Hl. unfold zlen. now rewrite map_length.
+  - intros i Hi. rewrite map_length in Hi. cbn [it_get]. rewrite Hg by auto. cbn [bind]. f_equal.
+    assert (nth_error (map g vs) i = Some (g (nth i vs dv))) as E.
+    { rewrite nth_error_map. destruct (nth_error vs i) eqn:E; [now rewrite (nth_error_nth _ _ _ E)|].
+      apply nth_error_None in E. lia. }
+    now rewrite (nth_error_nth _ _ _ E).
+Qed.
+
+(* the items a slice selects: those at the positions its range enumerates *)
+Definition slice_sel (r : rng) (vs : list val) : list val :=
+  map (fun p => nth (Z.to_nat p) vs dv) (range_elems r).
+
+Lemma lg_slice u vs r : lg u vs -> slice_ok r (zlen vs) -> lg (ISlice u r) (slice_sel r vs).
+Proof.
+  intros [Hl Hg] (Hb & Hs & Ht). pose proof (range_count_nonneg r) as Hc0.
+  pose proof (range_count_bound r Hb) as [Hc _]. split.
+  - cbn [it_len]. rewrite range_len_ok by auto. unfold zlen, slice_sel. rewrite map_length, range_elems_length. f_equal. lia.
+  - intros i Hi. unfold slice_sel in *. rewrite map_length, range_elems_length in Hi. cbn [it_get].
+    rewrite range_get_ok by (auto; unfold two63 in *; lia). cbv zeta.
+    replace (Z.of_nat i <? 0) with false by (symmetry; apply Z.ltb_ge; lia).
+    replace (0 <=? Z.of_nat i) with true by (symmetry; apply Z.leb_le; lia).
+    replace (Z.of_nat i <? range_count r) with true by (symmetry; apply Z.ltb_lt; lia).
+    cbn [andb bind].
+    assert (0 <= Z.of_nat i < range_count r) as Hi' by lia.
+    pose proof (range_val_bounds r _ Hb Hi') as Hv.
+    replace (range_val r (Z.of_nat i)) with (Z.of_nat (Z.to_nat (range_val r (Z.of_nat i)))) at 1 by lia.
+    rewrite Hg by (unfold zlen in *; lia). f_equal.
+    assert (nth_error (map (fun p => nth (Z.to_nat p) vs dv) (range_elems r)) i =
+            Some (nth (Z.to_nat (range_val r (Z.of_nat i))) vs dv)) as E
+      by (now rewrite nth_error_map, range_elems_nth).
+    now rewrite (nth_error_nth _ _ _ E).
+Qed.
+
+Lemma slice_chain_snd r cvs : slice_ok r (zlen cvs) ->
+  map snd (slice_chain r cvs) = slice_sel r (map snd cvs).
+Proof.
+  intros Hok. unfold slice_chain, slice_sel. rewrite map_map. apply map_ext_in.
+  intros p Hp. apply In_nth_error in Hp as [i Hi].
+  assert (i < Z.to_nat (range_count r))%nat as Hlt.
+  { rewrite <- range_elems_length. apply nth_error_Some. congruence. }
+  rewrite range_elems_nth in Hi by auto. inversion Hi; subst.
+  destruct (slice_pos_ok r cvs i Hok Hlt) as [_ Hq].
+  destruct (nth_error cvs (Z.to_nat (range_val r (Z.of_nat i)))) as [[c v]|] eqn:E.
+  - cbn [snd]. symmetry. apply nth_error_nth. now rewrite nth_error_map, E.
+  - apply nth_error_None in E. lia.
+Qed.
